@@ -59,10 +59,15 @@ func (json *SR) DeriveConstants() {
 	json.Es = (json.A2 - json.B2) / json.A2 // e ^ 2
 	json.E = math.Sqrt(json.Es)             // eccentricity
 	if json.Ra {
+		// +R_A: the sphere with the surface area of the ellipsoid takes the
+		// place of the ellipsoid, in every derived quantity.
 		json.A *= 1 - json.Es*(sixth+json.Es*(ra4+json.Es*ra6))
+		json.B = json.A
 		json.A2 = json.A * json.A
-		json.B2 = json.B * json.B
+		json.B2 = json.A2
 		json.Es = 0
+		json.E = 0
+		json.sphere = true
 	}
 	json.Ep2 = (json.A2 - json.B2) / json.B2 // used in geocentric
 	if math.IsNaN(json.K0) {
